@@ -389,6 +389,47 @@ func (comp) Exhaustive(prop string, tier string, yield func(*core.History)) {
 	if i := strings.IndexByte(prop, ':'); i >= 0 {
 		base = prop[:i]
 	}
+	// LARGE-POPULATION history (beyond the small scope): 40 senders x 14 nonces = 560 transactions (a block's worth), selections with
+	// count and gas budgets in the hundreds, removals in the middle of the lists, a second round of selections
+	if !strings.Contains(prop, ":") && (base == "C01" || base == "C03" || base == "C04" || base == "C05") {
+		nS, nN := 40, 14
+		if tier == "thorough" {
+			nS, nN = 60, 30
+		}
+		var senders [][]byte
+		for i := 0; i < nS; i++ {
+			senders = append(senders, []byte(fmt.Sprintf("S%02d", i)))
+		}
+		cfg := cfgT{numBytes: 1 << 28, bytesPerSender: 1 << 24, count: 1 << 20, countPerSender: 1 << 20, batch: 1, chunks: 16, senders: senders}
+		h := &core.History{}
+		h.SetConfig(cfg.tokens()...)
+		var accts []string
+		for i, sd := range senders {
+			accts = append(accts, core.L(core.B(sd), core.N(uint64(i%3)), core.Z(new(big.Int).Exp(big.NewInt(10), big.NewInt(22), nil))))
+		}
+		sel := func(gas uint64, mx uint64) {
+			h.Add(4, "select", core.N(gas), core.N(mx), core.L(accts...), core.L())
+		}
+		for n := 0; n < nN; n++ {
+			for i, sd := range senders {
+				gp := uint64(100 + 7*((i*31+n*17)%23))
+				gl := uint64(50000 + 1000*((i+n)%5))
+				t := &txSpec{hash: []byte(fmt.Sprintf("h-%02d-%02d", i, n)), sender: sd, nonce: uint64(n), gasLimit: gl, gasPrice: gp,
+					fee: new(big.Int).Mul(new(big.Int).SetUint64(gp), new(big.Int).SetUint64(gl)), value: big.NewInt(1), relayer: []byte{}, size: 100}
+				h.Add(1, "", t.args()...)
+			}
+		}
+		if base == "C01" || base == "C02" || base == "C03" || base == "C04" || base == "C05" {
+			sel(math.MaxUint64, 30000)
+			sel(10_000_000, 30000)
+			sel(math.MaxUint64, 257)
+			for i := 0; i < nS; i += 3 {
+				h.Add(2, "", core.B([]byte(fmt.Sprintf("h-%02d-%02d", i, nN/2))))
+			}
+			sel(math.MaxUint64, 30000)
+		}
+		yield(h)
+	}
 	mk := func(h, s string, nonce, gl, gp uint64, fee int64, size int64, relayer string) *txSpec {
 		return &txSpec{hash: []byte(h), sender: []byte(s), nonce: nonce, gasLimit: gl, gasPrice: gp, fee: big.NewInt(fee), value: big.NewInt(1),
 			relayer: []byte(relayer), size: size}
